@@ -90,6 +90,8 @@ def main(argv=None):
     ap.add_argument("--replay")
     ap.add_argument("--jobs", type=int, default=int(os.environ.get("VF_JOBS", "16")))
     ap.add_argument("--no-evidence", action="store_true")
+    ap.add_argument("--show-known", type=int, default=0,
+                    help="print this many sample observations per known finding")
     a = ap.parse_args(argv)
     prop = a.prop.upper()
     t0 = time.time()
@@ -126,6 +128,10 @@ def main(argv=None):
             fresh.append(v)
         else:
             known.setdefault(f["id"], [f, 0])[1] += 1
+            if a.show_known and known[f["id"]][1] <= a.show_known:
+                print("  known-sample", f["id"], json.dumps(
+                    {"kind": v["kind"], "case": v["case"], "detail": v["detail"],
+                     "tags": v.get("tags")})[:1200])
     for fid, (f, n) in sorted(known.items()):
         print(f"KNOWN-FINDING: property={prop} {fid}: {f['what']} "
               f"[{n} observation(s) this run]")
